@@ -114,9 +114,9 @@ def c17_race_run(ctx, tier, seed):
 PROPS = {
     "C03": {
         "level_text": "Theorems (Lean 4 kernel): the NAF digit strings satisfy pos - neg = k with no overlapping digits for EVERY byte string (per-byte identity by exhaustive kernel evaluation, then induction); splitK gives k1 + k2*lambda = k (mod N); (beta*x, y) = lambda*(x, y) on the whole group; ALL 8192 entries of the regenerated base-point table equal (j*256^(31-i))*G (checked in the kernel incrementally, row by row); ScalarBaseMultNonConst returns k*G and ScalarMultNonConst returns k*P as a well-formed (normalised, on-curve or identity) Jacobian triple for every scalar in [0,N) and EVERY point of the curve - the latter using card E = N (proved: Lagrange + at most 2 points per x + no 2-torsion), so every point is a multiple of G; the public key of d is d*G; smul is Mathlib's nsmul. The loops' models run the regenerated formula programs proved correct in C04. Correspondence: corner scalars (0, 1, 2, N-1, N-2, lambda, N-lambda, (N+-1)/2, 2^128+-1, 2^255, halves zero/negative/maximal), random scalars and points with random Z, splitK/naf/mul512 through hooks, every table entry as decoded by the REAL code (thorough: all 8192; quick: every 37th) - Jacobian results compared bit for bit and against the affine specification.",
-        "level_note": "Trusted: Lean kernel + Mathlib group definitions; tools/gotr T2/T3/T4 (regenerated; programs, constants and table executed/compared against the real code); the loop models are hand-written mirrors of curve.go (tied by the correspondence run). Value level (see C04's note). mul512Rsh320Round is modelled as floor((a*b + 2^319)/2^320); its exactness affects only the balance of the split, not correctness (splitK_spec holds for any c1, c2).",
+        "level_note": "Trusted: Lean kernel + Mathlib group definitions; tools/gotr T2/T3/T4 (regenerated; programs, constants and table executed/compared against the real code); the loop models are hand-written mirrors of curve.go (tied by the correspondence run). Value level (see C04's note). mul512Rsh320Round is modelled as floor((a*b + 2^319)/2^320) and that model is PROVED equal to the regenerated 64-bit limb kernel of the function for every pair of 8-word operands (mul512Rsh320Round_limbs: T1 with math/bits intrinsics, interval certificate, row-by-row omega); its exactness affects only the balance of the split, not correctness (splitK_spec holds for any c1, c2). The field arithmetic of the prelude and loops of both multiplication routines is covered by the sliced programs (scalar_mult_field_arithmetic_exact, pass T2s).",
         "technique": "Lean 4 proof (Secp.Props.C03: loop invariants in Mathlib's curve group, kernel-checked table, card E = N) + differential correspondence of Jacobian results",
-        "trusted_base": COMMON_TRUST + ["tools/gotr T2/T3/T4", "Mathlib WeierstrassCurve.Affine.Point, Lagrange, Cauchy"],
+        "trusted_base": COMMON_TRUST + ["tools/gotr T1/T2/T2s/T3/T4", "Mathlib WeierstrassCurve.Affine.Point, Lagrange, Cauchy"],
         "assumptions": [],
     },
     "C04": {
@@ -128,21 +128,21 @@ PROPS = {
     },
     "C12": {
         "level_text": "Theorems (Lean 4 kernel) about a model of ecckd (HMAC-SHA512 and RIPEMD160(SHA256) as parameters): CKDpriv returns exactly BIP32's fields (I_L, I_R, depth+1, fingerprint, child number, key = I_L + k_par mod N as exactly 32 bytes); private child keys always have 32 bytes; hardened-from-public and depth-255 derivations are refused; the accumulated tweak satisfies child = parent + t (mod N) along any path (induction over the path); for a private parent and a non-hardened index, neutering then deriving equals deriving then neutering with the same I_L (via PointSpec, proved in C03; group algebra in Mathlib's curve group; the BIP32 edge case child key = 0 is an explicit hypothesis). Correspondence (oracle table for the hashes): seeds 16..64 bytes, paths up to 8 over {0, 2^31-1, 2^31, 2^32-1, random}, neutering at every position, and a DIRECTED search (plain HMAC, 400 k candidates) for children whose private key has one and two or more leading zero bytes plus their hardened and normal grandchildren.",
-        "level_note": "HMAC-SHA512, RIPEMD-160 are parameters (oracle). BIP32's rejection of child key 0 / point at infinity is not implemented by the code (needs a SHA-512 preimage to reach; DESIGN.md O2) and appears as a hypothesis.",
+        "level_note": "The field arithmetic that ChildWithIL performs outside the point routines is REGENERATED on every run (tools/gotr pass T2s) and checked on every path by the abstract interpreter (theorem *_field_arithmetic_exact in this property's file; limb-level meaning: C16 absS_limb_sound). HMAC-SHA512, RIPEMD-160 are parameters (oracle). BIP32's rejection of child key 0 / point at infinity is not implemented by the code (needs a SHA-512 preimage to reach; DESIGN.md O2) and appears as a hypothesis.",
         "technique": "Lean 4 proof (Secp.Props.C12; induction over paths; group algebra via the Mathlib bridge) + differential correspondence with directed leading-zero search",
         "trusted_base": COMMON_TRUST + ["hand-written model mirrors the Go control flow; its point operations are the regenerated formula programs", "PointSpec (what the point routines compute) is a THEOREM: Secp.Props.C03.pointSpec, built on C04 (regenerated formula programs), the kernel-checked table, NAF/endomorphism lemmas and card E = N; it is about value-level execution of the regenerated programs - that limbs realise values is C05+C16"] + ["crypto/hmac+sha512, ripemd160 (oracle)"],
         "assumptions": ["child private key != 0 (BIP32 edge case the code does not implement)"],
     },
     "C13": {
         "level_text": "Theorems (Lean 4 kernel) about a model of MarshalBinary/UnmarshalBinary: decoding succeeds EXACTLY for 82 bytes with a matching double-SHA256 checksum, a key type consistent with the version and a private key in [1,N-1] or a parsable public key, and returns exactly the encoded fields; wrong length and wrong checksum are reported first; marshal then unmarshal is the identity on every private key the package can produce; the encoding has 82 bytes. Value semantics of a decoded key is structural in the model; for the CODE it is checked by the correspondence run, which overwrites the caller's buffer after every successful decode and re-reads the key (defect F2 was caught this way). Correspondence: valid private/public keys at several depths, each field set to boundary values with a recomputed checksum (all four versions and an unknown one, depth 255, key prefix 0..7 and 255, private key 0, N-1, N, 2^256-1, off-curve x, x >= P), checksum bit flips, lengths 0..100, base58 text form through an oracle.",
-        "level_note": "SHA-256 is the Lean implementation (diffed against crypto/sha256); base58 is an oracle. The public-key round trip relies on C08.",
+        "level_note": "The field arithmetic that UnmarshalBinary performs outside the point routines is REGENERATED on every run (tools/gotr pass T2s) and checked on every path by the abstract interpreter (theorem *_field_arithmetic_exact in this property's file; limb-level meaning: C16 absS_limb_sound). SHA-256 is the Lean implementation (diffed against crypto/sha256); base58 is an oracle. The public-key round trip relies on C08.",
         "technique": "Lean 4 proof (Secp.Props.C13) + differential correspondence with post-decode buffer scribbling",
         "trusted_base": COMMON_TRUST + ["base58 (oracle)", "Model.Bip32 mirrors extended.go (hand-written)"],
         "assumptions": [],
     },
     "C15": {
         "level_text": "Theorems (Lean 4 kernel) about a model of the crypto/elliptic adaptor: for operands that are curve points with coordinates in [0,P) or the (0,0) identity, Add returns the affine group-law sum (incl. equal, opposite and identity operands -> (0,0)), Double returns 2P (unconditionally: its single path is executed symbolically), ScalarMult and ScalarBaseMult return (k mod N)*P for scalars of ANY byte length, IsOnCurve is true exactly on the curve. Stated via PointSpec (proved in C03) with unconditional corollaries. The crypto/ecdsa interoperability half is differential: each run signs here and verifies with crypto/ecdsa (Verify and VerifyASN1) and vice versa, and compares converted keys.",
-        "level_note": "big.Int is modelled as a natural number; coordinates outside [0,P) are outside the property's domain (DESIGN.md O7). Interop with crypto/ecdsa is testing, labelled so.",
+        "level_note": "The field arithmetic that the adaptor methods performs outside the point routines is REGENERATED on every run (tools/gotr pass T2s) and checked on every path by the abstract interpreter (theorem *_field_arithmetic_exact in this property's file; limb-level meaning: C16 absS_limb_sound). big.Int is modelled as a natural number; coordinates outside [0,P) are outside the property's domain (DESIGN.md O7). Interop with crypto/ecdsa is testing, labelled so.",
         "technique": "Lean 4 proof (Secp.Props.C15, PointSpec proved in C03) + differential correspondence incl. crypto/ecdsa interop",
         "trusted_base": COMMON_TRUST + ["hand-written model mirrors the Go control flow; its point operations are the regenerated formula programs", "PointSpec (what the point routines compute) is a THEOREM: Secp.Props.C03.pointSpec, built on C04 (regenerated formula programs), the kernel-checked table, NAF/endomorphism lemmas and card E = N; it is about value-level execution of the regenerated programs - that limbs realise values is C05+C16"] + ["math/big", "crypto/ecdsa (interop oracle)"],
         "assumptions": [],
@@ -157,14 +157,14 @@ PROPS = {
     "C11": {
         "project": proj_c11,
         "level_text": "Theorems (Lean 4 kernel) about a model of schnorr/signature.go with BLAKE-256 as a parameter: verification returns nil EXACTLY when m is 32 bytes, Q is on the curve, e = BLAKE-256(r||m) < N and s*G + e*Q is a finite point with even y and x = r (via PointSpec, proved in C03); signing with a given nonce is the README algorithm (nonce negated when R.y is odd, e >= N reported, s = k - e*d); Sign refuses zero keys and wrong message lengths; the 64-byte codec accepts exactly length 64 with r < P, s < N and round-trips. Correspondence (BLAKE-256 answered from an oracle table filled by the real implementation): produced signatures, tampered r/s/m, wrong and off-curve keys, all message lengths, forced nonces through a hook incl. odd-y R and the nonce-not-negated variant, r >= P and s >= N encodings; each verification also compared with a textbook verifier over the affine specification.",
-        "level_note": "PointSpec is proved in C03. BLAKE-256 is a parameter: its correctness is trusted; the e >= N retry branch (probability 2^-128) is covered by the theorem about the model and by the extracted control flow, not by a real-code execution. 'a produced signature verifies' is exercised on every produced signature by the run.",
+        "level_note": "The field arithmetic that schnorrSign / schnorrVerify / ParseSignature performs outside the point routines is REGENERATED on every run (tools/gotr pass T2s) and checked on every path by the abstract interpreter (theorem *_field_arithmetic_exact in this property's file; limb-level meaning: C16 absS_limb_sound). PointSpec is proved in C03. BLAKE-256 is a parameter: its correctness is trusted; the e >= N retry branch (probability 2^-128) is covered by the theorem about the model and by the extracted control flow, not by a real-code execution. 'a produced signature verifies' is exercised on every produced signature by the run.",
         "technique": "Lean 4 proof (Secp.Props.C11, PointSpec proved in C03) + differential correspondence with an oracle-table hash",
         "trusted_base": COMMON_TRUST + ["hand-written model mirrors the Go control flow; its point operations are the regenerated formula programs", "PointSpec (what the point routines compute) is a THEOREM: Secp.Props.C03.pointSpec, built on C04 (regenerated formula programs), the kernel-checked table, NAF/endomorphism lemmas and card E = N; it is about value-level execution of the regenerated programs - that limbs realise values is C05+C16"] + ["BLAKE-256 implementation (oracle)"],
         "assumptions": ["BLAKE-256 returns 32 bytes"],
     },
     "C14": {
         "level_text": "Theorems (Lean 4 kernel): for all private keys a, b in [1,N-1], the secret computed from a and b*G is the 32-byte x coordinate of (a*b mod N)*G, hence both sides agree; every such private key has a finite on-curve public key. The group algebra is done in Mathlib's elliptic-curve group through the proven bridge (toE, order of G = N); the tie to the code's ScalarMult/ToAffine is PointSpec, proved in C03. Correspondence: both directions for random and boundary key pairs with the peer key obtained four ways (derived, parsed compressed, parsed uncompressed, parsed hybrid) against the model and the affine specification.",
-        "level_note": "PointSpec is proved in C03 (unconditional corollaries in the same file). Independence of key provenance follows from C08 (parsing returns the same normalised (x, y)) and is exercised by the four-encodings generator.",
+        "level_note": "The field arithmetic that GenerateSharedSecret performs outside the point routines is REGENERATED on every run (tools/gotr pass T2s) and checked on every path by the abstract interpreter (theorem *_field_arithmetic_exact in this property's file; limb-level meaning: C16 absS_limb_sound). PointSpec is proved in C03 (unconditional corollaries in the same file). Independence of key provenance follows from C08 (parsing returns the same normalised (x, y)) and is exercised by the four-encodings generator.",
         "technique": "Lean 4 proof in Mathlib's curve group via a proven bridge (Secp.Props.C14, PointSpec proved in C03) + differential correspondence",
         "trusted_base": COMMON_TRUST + ["hand-written model mirrors the Go control flow; its point operations are the regenerated formula programs", "PointSpec (what the point routines compute) is a THEOREM: Secp.Props.C03.pointSpec, built on C04 (regenerated formula programs), the kernel-checked table, NAF/endomorphism lemmas and card E = N; it is about value-level execution of the regenerated programs - that limbs realise values is C05+C16"],
         "assumptions": [],
@@ -185,14 +185,14 @@ PROPS = {
     },
     "C01": {
         "level_text": "Theorems (Lean 4 kernel) about a model of sign/signRFC6979 whose point arithmetic is the regenerated formula programs: with a given nonce the model returns exactly the FIPS 186 signature (r = x(kG) mod N, s = k^-1(e + r d)) with s normalised into the lower half and the recovery code (parity of y, x >= N) adjusted for the flip; the deterministic signer is the first index of the RFC 6979 HMAC-SHA256 candidate stream whose signature exists; r, s non-zero, s <= (N-1)/2, code < 4; the hash is read as its first 32 bytes reduced mod N. The theorems are stated with the layer contract PointSpec as a hypothesis and restated unconditionally (PointSpec is proved in C03). Correspondence: every generated (key, hash) - all hash lengths 0..70, e >= N, all-zero/all-one, keys 1 and N-1, forced nonces through the sign hook incl. s = 0 - is signed by the real code twice around unrelated calls in all five encodings (object, DER, compact x2, crypto.Signer x2) and compared byte for byte with the model and with an independent textbook ECDSA + RFC 6979 + SHA-256 written in Lean, whose result is additionally verified by the textbook verifier.",
-        "level_note": "PointSpec is proved (C03), unconditional corollaries are in the same file; HMAC-SHA256/SHA-256 are modelled in Lean and diffed against crypto/sha256 through every signature; termination of the retry loop is by fuel (a signature exists at index 0 with probability 1-2^-250).",
+        "level_note": "The field arithmetic that sign performs outside the point routines is REGENERATED on every run (tools/gotr pass T2s) and checked on every path by the abstract interpreter (theorem *_field_arithmetic_exact in this property's file; limb-level meaning: C16 absS_limb_sound). PointSpec is proved (C03), unconditional corollaries are in the same file; HMAC-SHA256/SHA-256 are modelled in Lean and diffed against crypto/sha256 through every signature; termination of the retry loop is by fuel (a signature exists at index 0 with probability 1-2^-250).",
         "technique": "Lean 4 proof over a model built on regenerated formula programs (Secp.Props.C01, PointSpec proved in C03) + differential correspondence against the code and an independent Lean ECDSA oracle",
         "trusted_base": COMMON_TRUST + ["Model.Ecdsa mirrors signature.go (hand-written control flow; point operations are the regenerated formula programs)", "PointSpec (scalar multiplication / addition / ToAffine / DecompressY compute the affine group law) is a THEOREM: Secp.Props.C03.pointSpec; every conditional theorem has an unconditional corollary in the same Props file"],
         "assumptions": ["0 < d < N"],
     },
     "C02": {
         "level_text": "Theorems (Lean 4 kernel): the Jacobian comparison at the end of Verify - r*Z^2 = X or (r < P-N and (r+N)*Z^2 = X) - holds exactly when x(R) mod N = r, for ALL X, Z != 0, r < N (this is where the rare x >= N signatures live); and the model of Verify returns exactly the textbook verdict (r, s non-zero, R = (e/s)G + (r/s)Q finite, x(R) mod N = r) for every hash, every Q on the curve and all r, s < N (stated with the layer contract PointSpec, which C03 proves; unconditional corollary in the same file). Correspondence: valid signatures, (r, N-s), nonce-x >= N signatures CONSTRUCTED by key recovery (4+ per run) and their near misses, u1 G + u2 Q = identity by choosing the hash, single-bit and boundary mutations, wrong keys, random forgeries, the P-N guard boundary - real Verify vs model vs independent textbook verifier.",
-        "level_note": "PointSpec is proved in C03. 'accepts both s and N-s' and 'rejects every other alteration' are properties of the textbook predicate; they follow from the group law (Secp.Proofs.SpecGroup) and are exercised by the generators.",
+        "level_note": "The field arithmetic that Verify performs outside the point routines is REGENERATED on every run (tools/gotr pass T2s) and checked on every path by the abstract interpreter (theorem *_field_arithmetic_exact in this property's file; limb-level meaning: C16 absS_limb_sound). PointSpec is proved in C03. 'accepts both s and N-s' and 'rejects every other alteration' are properties of the textbook predicate; they follow from the group law (Secp.Proofs.SpecGroup) and are exercised by the generators.",
         "technique": "Lean 4 proof (Secp.Props.C02: field-arithmetic lemma for all inputs + model = textbook verifier, PointSpec proved in C03) + differential correspondence with directed generators",
         "trusted_base": COMMON_TRUST + ["Model.Ecdsa mirrors signature.go (hand-written control flow; point operations are the regenerated formula programs)", "PointSpec (scalar multiplication / addition / ToAffine / DecompressY compute the affine group law) is a THEOREM: Secp.Props.C03.pointSpec; every conditional theorem has an unconditional corollary in the same Props file"],
         "assumptions": ["Q on the curve, r, s < N (the property's domain)"],
@@ -200,7 +200,7 @@ PROPS = {
     "C07": {
         "project": proj_rec,
         "level_text": "Theorems (Lean 4 kernel): for arbitrary (r, s, code, hash) with 0 < r < N, s < N, code < 4 the model of RecoverPublicKey succeeds exactly when the textbook SEC1 4.1.6 procedure does and returns the same key (via the layer contract PointSpec, proved in C03); it panics exactly for the documented misuse (no recovery code); Export maps high s to (N-s, code xor 1) and leaves low s alone; both compact layouts carry exactly Export's triple; ParseCompactSignature inverts ExportCompact for headers 27/31. Correspondence: produced signatures through object/Export/ExportCompact (both layouts, offsets 27, 31, 0)/SignCompact/RecoverCompact, high-s twins with their flipped codes (the F1 defect, now fixed, is caught here), all four codes, r around P-N with and without the overflow bit, x not on the curve, headers 0..255, r/s boundary values.",
-        "level_note": "PointSpec is proved in C03. 'a returned key verifies the signature' and 'recovering from a produced signature returns the signer' are group-law consequences (Secp.Proofs.SpecGroup) exercised on every produced signature by the correspondence run.",
+        "level_note": "The field arithmetic that RecoverPublicKey performs outside the point routines is REGENERATED on every run (tools/gotr pass T2s) and checked on every path by the abstract interpreter (theorem *_field_arithmetic_exact in this property's file; limb-level meaning: C16 absS_limb_sound). PointSpec is proved in C03. 'a returned key verifies the signature' and 'recovering from a produced signature returns the signer' are group-law consequences (Secp.Proofs.SpecGroup) exercised on every produced signature by the correspondence run.",
         "technique": "Lean 4 proof (Secp.Props.C07, PointSpec proved in C03) + differential correspondence incl. export/recover round trips",
         "trusted_base": COMMON_TRUST + ["Model.Ecdsa mirrors signature.go (hand-written control flow; point operations are the regenerated formula programs)", "PointSpec (scalar multiplication / addition / ToAffine / DecompressY compute the affine group law) is a THEOREM: Secp.Props.C03.pointSpec; every conditional theorem has an unconditional corollary in the same Props file"],
         "assumptions": [],
@@ -242,7 +242,7 @@ PROPS = {
     },
     "C08": {
         "level_text": "Machine-checked theorems (Lean 4 kernel, Mathlib ZMod P with a Pratt-certificate proof that P is prime) for ALL byte strings about a hand-written model of ParsePubKey / Serialize* / schnorr.ParsePubKey: never panics; accepts exactly the valid SEC1 compressed/uncompressed/hybrid encodings of curve points with coordinates < P (using Euler's criterion for the square-root test and that -7 is not a cube mod P), returns that very point, never an off-curve key; each error kind names a rule really violated; all serialise/parse round trips incl. byte-for-byte reproduction of canonical inputs. Tied to the code by a correspondence run: all 256 tag bytes x both lengths, lengths 0..70, x >= P, non-residue x, flipped / mismatched-parity / off-curve y, bit flips; every op is also compared with a specification-level verdict computed independently of the model.",
-        "level_note": "Trusted: Lean kernel + Mathlib definitions of ZMod/IsSquare; hand-written model mirrors pubkey.go (validated on generated inputs); field arithmetic inside the parser is modelled at value level (x, y as naturals mod P) - the limb level is C05/C16.",
+        "level_note": "The field arithmetic that ParsePubKey and the serialisers performs outside the point routines is REGENERATED on every run (tools/gotr pass T2s) and checked on every path by the abstract interpreter (theorem *_field_arithmetic_exact in this property's file; limb-level meaning: C16 absS_limb_sound). Trusted: Lean kernel + Mathlib definitions of ZMod/IsSquare; hand-written model mirrors pubkey.go (validated on generated inputs); field arithmetic inside the parser is modelled at value level (x, y as naturals mod P) - the limb level is C05/C16.",
         "technique": "Lean 4 proof over a hand-written model (Secp.Props.C08) + differential correspondence with ParsePubKey and an independent spec oracle",
         "project": proj_c08,
         "trusted_base": COMMON_TRUST + ["Mathlib ZMod / Euler criterion", "Model.parsePubKey mirrors pubkey.go (hand-written)"],
